@@ -11,6 +11,7 @@ from __future__ import annotations
 
 import multiprocessing as mp
 import os
+import sys
 import time
 import traceback
 from fractions import Fraction
@@ -25,7 +26,7 @@ from . import solve, source
 
 class VC:
     def __init__(self, clause, name, module, qualname, thunk, pre=(), posts=(), inputs=None, replay=None, loops=None, contracts=None,
-                 stubs=None, twins=(), axioms=(), timeout_ms=None, assumptions=(), fragment=None, lemmas=(), max_paths=4000, notes=""):
+                 stubs=None, twins=(), axioms=(), timeout_ms=None, assumptions=(), fragment=None, lemmas=(), max_paths=4000, notes="", witness_hints=()):
         self.clause, self.name, self.module, self.qualname = clause, name, module, qualname
         self.thunk, self.pre, self.posts = thunk, list(pre), list(posts)
         self.inputs, self.replay = inputs or {}, replay
@@ -36,6 +37,9 @@ class VC:
         self.lemmas = list(lemmas)  # [(name, [hyps], goal)] extra standalone obligations (ghost lemmas)
         self.max_paths = max_paths
         self.notes = notes
+        # optional concrete values (formulas over the VC's own symbols, e.g. B == 1, V == 2) the consistency guard may add to find a
+        # model of a path's hypotheses and instances when nonlinear terms leave the plain query undecided
+        self.witness_hints = list(witness_hints)
 
 
 _VCS: Dict[str, VC] = {}
@@ -165,10 +169,22 @@ def _run_vc(args):
 
         def solve_task(name, fmls, goal, kind, insts=None):
             r = None
+            if kind == "guard-sat":  # consistency of a path's quantifier-free hypotheses and explicit instances (goal is None)
+                r = solve.check_unsat(list(fmls), timeout_ms=5000, cvc5_fallback=False, want_model=False)
+                if r.status not in ("sat", "unsat") and vc.witness_hints:
+                    r2 = solve.check_unsat(list(fmls) + list(vc.witness_hints), timeout_ms=10000, cvc5_fallback=False, want_model=False)
+                    if r2.status == "sat":
+                        r = solve.Result("sat", r2.backend, r.ms + r2.ms, note="with the VC's witness hints")
+                return {"name": name, "status": r.status, "backend": r.backend, "ms": round(r.ms, 1), "kind": kind, "note": r.note}
             if insts:
                 # quantifier-free attempt: quantified hypotheses dropped (weakening), the sidecar's explicit instances added
                 qf = [h for h in fmls if not ip.has_quantifier(h)]
                 if len(qf) < len(fmls):
+                    if os.environ.get("VERIF_DUMP") and os.environ["VERIF_DUMP"] in name:  # debugging aid: the quantifier-free query as SMT-LIB
+                        s_ = z3.Solver()
+                        s_.add(qf + list(insts) + [z3.Not(goal)])
+                        with open("/tmp/dump_%d.smt2" % (abs(hash(name)) % 100000), "w") as fh:
+                            fh.write("; %s\n" % name + s_.to_smt2())
                     r0 = solve.check_unsat(qf + list(insts) + [z3.Not(goal)], timeout_ms=to, cvc5_fallback=False, want_model=False)
                     if r0.status == "unsat":
                         r = solve.Result("unsat", "z3[explicit instances]", r0.ms)
@@ -236,7 +252,19 @@ def _run_vc(args):
         for lem in vc.lemmas:
             lname, lh, lg = lem[:3]
             decide("%s/lemma:%s" % (vc.name, lname), list(lh), lg, kind="lemma-raw" if len(lem) > 3 and lem[3] == "raw" else "lemma")
-        out["obligations"] = _discharge(tasks, solve_task, nchild)
+        # vacuity guard 3: the explicit instances a path's obligations were proved from are not contradictory among themselves (the
+        # quantifier-free attempt uses nothing else: were they unsatisfiable, every goal would follow). One query per path, on the
+        # largest instance set of the path; discharged with the obligations.
+        for i, p in enumerate(paths):
+            last = [ob for ob in p.obls if ob.insts]
+            if last:
+                ob = last[-1]
+                tasks.append(("instances-consistent#path%d" % i, [h for h in ob.hyps if not ip.has_quantifier(h)] + list(ob.insts), None, "guard-sat", None))
+        recs = _discharge(tasks, solve_task, nchild)
+        out["obligations"] = [r_ for r_ in recs if r_.get("kind") != "guard-sat"]
+        for r_ in recs:
+            if r_.get("kind") == "guard-sat":
+                out["guards"].append({"name": r_["name"], "ok": r_["status"] != "unsat", "status": r_["status"]})
         # vacuity guard 2: must-fail twins
         for tname, fn in vc.twins:
             goals = []
@@ -321,6 +349,8 @@ def run_vcs(ctx: core.Ctx, vcs: List[VC], text_by_clause: Optional[Dict[str, str
                 ctx.undecided.append(r["name"])
                 continue
             for g in r["guards"]:
+                if os.environ.get("VERIF_SHOW"):
+                    print("GUARD %s %s: %s" % (r["name"][:40], g["name"], g.get("status")), file=sys.stderr)
                 if not g["ok"]:
                     c.status = "error"
                     problems.append("%s: vacuity guard %s failed (%s)" % (r["name"], g["name"], g.get("status")))
@@ -368,6 +398,8 @@ def run_vcs(ctx: core.Ctx, vcs: List[VC], text_by_clause: Optional[Dict[str, str
                     if c.status == "ok":
                         c.status = "undecided"
                     problems.append("%s: %s (%s)" % (ob["name"], ob["status"], ob.get("note", "")))
+                    if os.environ.get("VERIF_SHOW"):  # debugging aid: list every open obligation
+                        print("OPEN %s: %s (%s) %s ms" % (ob["name"], ob["status"], ob.get("note", ""), ob.get("ms")), file=sys.stderr)
                     ctx.undecided.append(ob["name"])
         c.backend = "+".join(sorted(backends))
         c.detail = "; ".join(problems)[:1500]
